@@ -203,11 +203,14 @@ inductive Op where
   | resume (t : Nat) (thrown : Bool) -- later `send(value)` / `throw(error)` (async_task.py:215-223)
   | suspend (t : Nat)                -- the body yields (async_task.py:246-247)
   | complete (t : Nat) (o : Outc)    -- the body returns / raises: `running = False`, set_value/set_error, callbacks
+  | threadEnd (th : Nat)             -- the thread with token `th` has finished: its Thread object is never seen again
+                                     -- (the OS may hand its ident / name to a LATER thread, which is a different token);
+                                     -- nothing in tools.py reacts to it - the entries the thread left behind stay
   deriving Repr, DecidableEq, Inhabited
 
 def Op.name : Op → String
   | .call _ => "call" | .dirty _ => "dirty" | .start _ => "start" | .resume _ _ => "resume"
-  | .suspend _ => "suspend" | .complete _ _ => "complete"
+  | .suspend _ => "suspend" | .complete _ _ => "complete" | .threadEnd _ => "threadEnd"
 
 inductive Res where
   | ret (t : Nat) (new : Bool)   -- the task returned, and whether this call created it
@@ -289,6 +292,7 @@ def step (fns : List FnDecl) (s : St) : Op → St × Res
         -- `callback` removes the entry of the key it closed over only if it still holds THIS task: after dirty()
         -- the key may already belong to a newer in-flight task (tools.py:366-370)
         (if task.reg && mget s'.table task.key == some t then { s' with table := merase s'.table task.key } else s', .unit)
+  | .threadEnd _ => (s, .unit)      -- no code runs: the table is process-wide and keyed by the Thread OBJECT
 
 def observe (fns : List FnDecl) (s : St) (op : Op) : St × Obs :=
   let (s', r) := step fns s op
@@ -297,6 +301,28 @@ def observe (fns : List FnDecl) (s : St) (op : Op) : St × Obs :=
 def run (fns : List FnDecl) (s : St) : List Op → List Obs
   | [] => []
   | op :: ops => let (s', o) := observe fns s op; o :: run fns s' ops
+
+/-- the state after a history (no observations) -/
+def finalState (fns : List FnDecl) (s : St) : List Op → St
+  | [] => s
+  | op :: ops => finalState fns (step fns s op).1 ops
+
+/-- the table key an operation works on (`none`: the operation does not touch the table at all) -/
+def opKey (fns : List FnDecl) (s : St) : Op → Option Key
+  | .call c | .dirty c =>
+    match fns[c.fn]? with
+    | none => none
+    | some d =>
+      match d.sig.key (effArgs d c) c.kw with
+      | .error _ => none
+      | .ok tup => some { tup := tup, th := c.th, fn := c.fn }
+  | .complete t _ => (s.tasks[t]?).map (·.key)
+  | _ => none
+
+/-- no operation of the history works on key `k` -/
+def avoids (fns : List FnDecl) (k : Key) (s : St) : List Op → Bool
+  | [] => true
+  | op :: ops => opKey fns s op != some k && avoids fns k (step fns s op).1 ops
 
 def sigsOk (fns : List FnDecl) : Bool := fns.all fun d => d.sig.ok
 
@@ -407,6 +433,8 @@ def watchStep (fns : List FnDecl) (w : Watch) (ob : Obs) : Except String Watch :
         -- the in-flight period of this call ends only if this task still is its in-flight task: the completion
         -- of an older, dirtied task must NOT end the period of the newer one
         if mget w.ref x.rk == some t then .ok { w' with ref := merase w.ref x.rk } else .ok w'
+  -- the end of a thread ends nothing: the calls it left in flight stay in flight (for that thread token only)
+  | .threadEnd _ => .ok w
 
 def watchRun (fns : List FnDecl) (w : Watch) : List Obs → Except String Watch
   | [] => .ok w
